@@ -38,7 +38,7 @@ EXPLANATION = (
     "box2/3/4 i/f, box3fa). Not decided: floating-point rounding (incl. the float arithmetic center()/area() use "
     "on integer boxes), NaN bounds, conditioning of the affine map, correctness of xfmPoint itself (C06).")
 
-R1, R2, R3, R4, R5, R6 = 'R-C05-1', 'R-C05-2', 'R-C05-3', 'R-C05-4', 'R-C05-5', 'R-C05-6'
+R1, R2, R3, R4, R5, R6, R7 = 'R-C05-1', 'R-C05-2', 'R-C05-3', 'R-C05-4', 'R-C05-5', 'R-C05-6', 'R-C05-7'
 RANGE_H, BOX_H, CONST_H, AFF_H = ('rkcommon/math/range.h', 'rkcommon/math/box.h', 'rkcommon/math/constants.h',
                                   'rkcommon/math/AffineSpace.h')
 LO, HI = 'lower', 'upper'
@@ -158,6 +158,37 @@ def fam_predicate(res, s, v, spec, what, n=None, expand=False):
             computed.append(show(x, s.names))
         return x
     map_terms(t, scan_atoms)
+    diffs = []
+
+    def is_bound(x):
+        return (x[0] == 'm' and x[2] in (LO, HI)) or x[0] in ('p', 'this')
+
+    def is_difference(x):
+        x = all_conv(x)
+        if x[0] == 'mcall' and x[1] == 'size' and not x[3]:
+            return True
+        return x[0] == 'b' and x[1] == '-' and is_bound(all_conv(x[2])) and is_bound(all_conv(x[3]))
+
+    def is_zero(x):
+        x = all_conv(x)
+        return x == ('lit', Fraction(0)) or (x[0] == 'g' and x[1] == 'zero')
+
+    def scan_lt(x):
+        if x[0] == 'call' and x[1] == 'anyLessThan' and len(x[2]) == 2:
+            a, b = x[2]
+            if (is_difference(a) and is_zero(b)) or (is_zero(a) and is_difference(b)):
+                diffs.append(show(x, s.names))
+            elif calls_in(a) or calls_in(b):
+                computed.append(show(x, s.names))
+        elif x[0] == 'b' and x[1] in ('<', '>', '<=', '>=') and ((is_difference(x[2]) and is_zero(x[3])) or (is_zero(x[2]) and is_difference(x[3]))):
+            diffs.append(show(x, s.names))
+        return x
+    map_terms(t, scan_lt)
+    if diffs:
+        res.bad(R1, '%s tests the sign of a difference of the bounds (`%s`) instead of comparing the bounds: for integer bounds more '
+                    'than 2^31 apart the subtraction overflows - in particular for the default empty box (INT_MAX, INT_MIN) - so the '
+                    'order of the bounds is not what is tested' % (what, diffs[0][:120]), 'difference-compare')
+        return
     if computed:
         # e.g. `clamp(t) == t`: the compared value is itself a function of the bounds, so its order relation to t is not a
         # free atom; the truth-table form does not apply (the IR identities R-C05-6 decide such a body)
@@ -199,6 +230,14 @@ def fam_extend(res, s, v):
     else:
         alo = ahi = arg
     eff = {}
+    if s.kinds == ['range']:
+        pts = [st[1][3][0] for st in v.body() if st[0] == 'expr' and st[1][0] == 'mcall' and st[1][1] == 'extend' and st[1][2] == THIS
+               and len(st[1][3]) == 1]
+        if len(pts) == 2 and {all_conv(x) for x in pts} == {alo, ahi} and len([st for st in v.body() if st[0] != 'ret']) == 2:
+            res.bad(R2, 'extend(range) is performed as extend(%s); extend(%s): both bounds of the argument are folded into both bounds '
+                        'of this range, so an empty (inverted) argument - the identity of extend - enlarges the range to its bounds' % (
+                            show(pts[0], names), show(pts[1], names)), 'extend-by-points')
+            return
     for st in v.body():
         if st[0] == 'expr' and st[1][0] == 'asg' and st[1][1] == '=' and st[1][2][0] == 'm' and st[1][2][1] == THIS:
             fld = st[1][2][2]
@@ -1327,6 +1366,40 @@ def exact_on_integers(res, tu, f, s, what):
         res.ok(R3, '%s on %s stays in integer arithmetic' % (what, el))
 
 
+def check_asserts(res, s, v, inl, what):
+    """R-C05-7: an assert() in a range/box function is compiled into every build without NDEBUG; its predicate must hold for
+    every non-empty argument (the only precondition the functions document), otherwise valid input aborts in those builds"""
+    names = s.names
+    for pred in v.asserts:
+        p = inl.expr(pred) if inl is not None else pred
+
+        def f(x):
+            if x[0] == 'mcall' and x[1] == 'empty' and not x[3]:
+                return L(M(x[2], HI), M(x[2], LO))
+            return x
+        p = all_conv(map_terms(p, f))
+        boxes = [('p', i) for i, q in enumerate(s.params) if q['k'] == 'range'] + ([THIS] if s.rec == 'rkcommon::math::range_t' else [])
+        pre = ('lit', True)
+        for b in boxes:
+            pre = ('b', '&&', pre, ('u', '!', L(M(b, HI), M(b, LO))))
+        opaque = lambda z: ('anyLessThan(%s, %s)' % (show(z[2][0], names), show(z[2][1], names))) if lt_atom(z) and not (
+            calls_in(z[2][0]) or calls_in(z[2][1])) else None
+        impl = ('b', '||', ('u', '!', pre), p)
+        fm = Formula(opaque=opaque, names=names)
+        fm.scan(impl)
+        if fm.bad:
+            res.und(R7, '%s: assert(%s): predicate not recognised (%s)' % (what, show(pred, names)[:100], fm.bad[0][:80]))
+            continue
+        d = fm.compare(impl, ('lit', True))
+        if d is None:
+            res.ok(R7, '%s: assert(%s) holds for every non-empty argument' % (what, show(pred, names)[:100]))
+        else:
+            res.bad(R7, '%s: assert(%s) [= %s] fails for a valid, non-empty argument (%s) - e.g. a box that is a single point has '
+                        'no axis with lower < upper: in every build without NDEBUG the call aborts although the result is well '
+                        'defined, and the build configurations disagree' % (what, show(pred, names)[:100], show(p, names)[:120], d),
+                    'assert-rejects-valid')
+
+
 def resolved_callees(res, tu, f, v, rule):
     """typed instances: anyLessThan / min / max on vector bounds resolve to vec.h's component-wise overloads (whose meaning
     C04 decides), on scalar bounds to range.h's scalar anyLessThan / std::min / std::max"""
@@ -1393,6 +1466,8 @@ def analyse(ctx, tu, label=''):
             continue
         if not res.items:
             ctx.undecided(RULE_OF.get(fam, R1), inst, 'family checker produced no result', loc)
+        if v.asserts:
+            check_asserts(res, s, v, inl, s.name)
         if level == 'typed' and not any(it[0] != 'ok' for it in res.items):
             resolved_callees(res, tu, f, v, RULE_OF.get(fam, R1))
         if level == 'typed' and fam in ('size/center', 'area/volume', 'scale/translate'):
@@ -1430,6 +1505,8 @@ def run(ctx):
                      'intersectionOf = (max of lowers, min of uppers); clamp; constructors / views fill lower then upper')
     ctx.describe(R3, 'size = upper-lower, center = (lower+upper)/2, area, volume, scale, translate equal their definitions as '
                      'polynomials over the bounds')
+    ctx.describe(R7, 'assert() predicates in range/box functions hold for every non-empty argument (they are live in every build '
+                     'without NDEBUG; the front end parses with -UNDEBUG so they are visible)')
     ctx.describe(R4, 'xfmBounds extends an empty box by xfmPoint(m, corner) for exactly the 8 corners (lower|upper)^3, every '
                      'coordinate in its own slot')
     ctx.describe(R5, 'intersectRayBox is the slab idiom: per-axis (bound-org)*rcp_safe(dir), entry = max over axes of the nearer '
